@@ -236,15 +236,17 @@ def check(ctx):
     okg = False
     for nm in run.bindings:
         ga = E.guarded_assigns(run, nm)
-        gath = [(c_, v_) for c_, v_ in ga if isinstance(v_, ast.Call) and isinstance(v_.func, ast.Attribute) and v_.func.attr == "gather"
-                and len(v_.args) == 1 and is_name(v_.args[0], "output") and not v_.keywords]
+        # Plan.gather(output), or the frame-explicit Plan._gather(<frame>, output)
+        gath = [(c_, v_) for c_, v_ in ga if isinstance(v_, ast.Call) and isinstance(v_.func, ast.Attribute) and not v_.keywords
+                and ((v_.func.attr == "gather" and len(v_.args) == 1) or (v_.func.attr == "_gather" and len(v_.args) == 2))
+                and is_name(v_.args[-1], "output")]
         if gath and nm != "redirected_output_node":
             nones = [(c_, v_) for c_, v_ in ga if isinstance(v_, ast.Constant) and v_.value is None]
             others = [x for x in ga if x not in gath and x not in nones]
             # gathered exactly when an output was requested; None otherwise (either as the else-value or as a default)
             okg = len(gath) == 1 and not others and E.about(gath[0][0], "output") == {("set:output", True)} and \
                 all(E.about(c_, "output") <= {("set:output", False)} for c_, v_ in nones) and bool(nones)
-    ctx.ob("C02.B5", f"{run.short}/gathers-output", okg, loc(run), "the output spec is gathered (None means no output)" if okg else "the output spec is not gathered as `plan.gather(output) if output is not None else None`")
+    ctx.ob("C02.B5", f"{run.short}/gathers-output", okg, loc(run), "the output spec is gathered (None means no output)" if okg else "the output spec is not gathered exactly when an output was requested (`plan.gather(output) if output is not None else None`)")
     rp = rr.run_physical
     gr = E.guarded_returns(rp)
     vals = [(c_, v_) for c_, v_ in gr if isinstance(v_, ast.Attribute) and v_.attr == "value" and isinstance(v_.value, ast.Name)]
